@@ -885,7 +885,7 @@ Definition same_marks (sm1 sm2 : summary) : Prop :=
   (forall t r, row_before sm1 t r = row_before sm2 t r) /\
   (forall t r, row_after sm1 t r = row_after sm2 t r).
 
-Record calc_inv (sd : state) (smd : summary) (m : mstate O) : Prop := mkCI {
+Record calc_inv (sd : state) (smd : summary) (m : mstate O) : Prop := mkCalcInv {
   ci_rel : calc_rel sd (m_sum O m) (m_doc O m);
   ci_live : deltas_live (m_sum O m) (m_doc O m);
   ci_marks : same_marks (m_sum O m) smd }.
@@ -1446,6 +1446,268 @@ Proof.
   destruct (replay_tables sd sm (sorted_keys (sm_tables O sm)) [] s1 Hn Hwf Hb Hl) as [s' [Hr Hn']].
   exists s'. split; [exact Hr|]. eapply near_final; [exact Hn'|].
   intros t c r H. eapply all_pairs_cover. exact H.
+Qed.
+
+
+(* ------------------------------------------------------------------------------------------------ *)
+(* a bundle: doc actions, then calc deltas, then the flush *)
+
+Definition calc_ev := (name * name * list (change O))%type.
+Definition calc_event (ce : calc_ev) : event O := let '(t, c, chs) := ce in Calc O t c chs.
+
+Fixpoint calcs_ok (m : mstate O) (calcs : list calc_ev) : Prop :=
+  match calcs with
+  | [] => True
+  | (t, c, chs) :: rest =>
+      calc_event_ok m t c chs /\
+      match step O m (Calc O t c chs) with Ok m' => calcs_ok m' rest | Err _ => True end
+  end.
+
+Lemma calc_phase : forall calcs sd smd m m',
+  calc_inv sd smd m -> calcs_ok m calcs -> steps O m (map calc_event calcs) = Ok m' ->
+  calc_inv sd smd m' /\ m_undo O m' = m_undo O m /\ m_stored O m' = m_stored O m.
+Proof.
+  induction calcs as [|[[t c] chs] rest IH]; intros sd smd m m' Hinv Hok H; cbn [map steps calc_event] in H.
+  - inversion H; subst. auto.
+  - cbn [calcs_ok] in Hok. destruct Hok as [Hev Hrest].
+    destruct (step O m (Calc O t c chs)) as [m1|] eqn:Es; cbn [bind] in H; [|discriminate].
+    destruct (calc_step _ _ _ _ _ _ _ Hinv Hev Es) as [Hinv1 [Hu1 Hs1]].
+    destruct (IH _ _ _ _ Hinv1 Hrest H) as [Hinv' [Hu' Hs']].
+    split; [exact Hinv'|]. split; congruence.
+Qed.
+
+Lemma created_same_marks : forall sm1 sm2 t c r, same_marks sm1 sm2 -> created sm1 t c r -> created sm2 t c r.
+Proof.
+  intros sm1 sm2 t c r [M1 [M2 [M3 _]]] H. apply created_iff in H. apply created_iff.
+  rewrite <- M1, <- M2, <- M3. exact H.
+Qed.
+
+Lemma existing_calc_rel : forall sd sm s t c r, calc_rel sd sm s -> existing s t c r -> existing sd t c r.
+Proof.
+  intros sd sm s t c r H [T [C [Hf [Hc Hr]]]]. specialize (H t). rewrite Hf in H.
+  destruct (find_table O sd t) as [Td|] eqn:Efd; [|contradiction]. destruct H as [Hrows Hcols].
+  specialize (Hcols c). rewrite Hc in Hcols. destruct (find_col O (t_cols O Td) c) as [Cd|] eqn:Ecd; [|contradiction].
+  exists Td, Cd. split; [exact Efd|]. split; [exact Ecd | apply Hrows; exact Hr].
+Qed.
+
+(* the initial machine of a bundle *)
+Definition m_init (s : state) : mstate O := mkM O s [] [] (sum_empty O).
+
+Lemma docs_inv_init : forall s, wf_state O s -> names_ok s -> docs_inv s (m_init s).
+Proof.
+  intros s Hwf Hn. constructor; cbn.
+  - apply tr_ok_init.
+  - exact Hwf.
+  - split; [exact Hn|]. split.
+    + intros t H. cbn in H. congruence.
+    + intros t T r _ _. unfold row_after. cbn. discriminate.
+  - apply sum_empty_nodeltas.
+Qed.
+
+Theorem calc_bundle_undo : forall s acts calcs s' out,
+  wf_state O s -> names_ok s -> lossless_run O s acts -> names_run acts ->
+  (forall m, steps O (m_init s) (map (Doc O) acts) = Ok m -> calcs_ok m calcs) ->
+  run O s (map (Doc O) acts ++ map calc_event calcs) = Ok (s', out) ->
+  exists s'', replay_doc O (rev (o_undo O out)) s' = Ok s'' /\ seq O s'' s.
+Proof.
+  intros s acts calcs s' out Hwf Hnames Hl Hnr Hcalcs H. unfold run in H. fold (m_init s) in H.
+  rewrite !(steps_app O) in H.
+  destruct (steps O (m_init s) (map (Doc O) acts)) as [md|] eqn:Ed; [|discriminate].
+  destruct (docs_phase acts s (m_init s) md (docs_inv_init s Hwf Hnames) Hl Hnr Ed) as [[Htr Hwfd [Hnd_names [Hkeys Hafter]] Hnd] _].
+  specialize (Hcalcs md eq_refl).
+  destruct (steps O md (map calc_event calcs)) as [mc|] eqn:Ec; [|discriminate].
+  assert (Hci0 : calc_inv (m_doc O md) (m_sum O md) md).
+  { constructor.
+    - apply calc_rel_init. exact Hnd.
+    - intros t c r Hg. rewrite nodeltas_delta_of in Hg by exact Hnd. cbn in Hg. congruence.
+    - repeat split; reflexivity. }
+  destruct (calc_phase calcs _ _ md mc Hci0 Hcalcs Ec) as [[Hrel Hlive Hmarks] [Hu _]].
+  cbn [steps step] in H.
+  assert (Hlive_d : live_in (m_doc O md) (m_sum O mc)).
+  { intros t c r Hg. eapply existing_calc_rel; [exact Hrel | apply Hlive; exact Hg]. }
+  assert (Hok : all_deltas_ok (m_sum O mc)).
+  { intros t td c cd Htd Hcd Hne.
+    assert (Hdo : delta_of (m_sum O mc) t c = cd) by (unfold delta_of; rewrite Htd, Hcd; reflexivity).
+    destruct cd as [|[r0 x0] cd0] eqn:Ecd; [congruence|].
+    assert (Hg0 : delta_get O (delta_of (m_sum O mc) t c) r0 <> None) by (rewrite Hdo; cbn; rewrite Z.eqb_refl; discriminate).
+    destruct (Hlive_d t c r0 Hg0) as [Td [Cd [Hft [Hfc _]]]].
+    destruct (Hnd_names _ _ Hft) as [Hdt Hdc]. split; [exact Hdt|]. split; [exact (Hdc _ _ Hfc)|].
+    intros r Hg. rewrite <- Hdo in Hg. destruct (Hlive_d t c r Hg) as [Td' [Cd' [Hft' [_ Hr']]]].
+    destruct Hmarks as [_ [_ [_ M4]]]. rewrite M4. eapply Hafter; eassumption. }
+  destruct (flush_all_undo (m_sum O mc) (m_stored O mc) (m_undo O mc) Hok) as [S' Hflush].
+  rewrite Hflush in H. cbn in H. inversion H; subst s' out; clear H. cbn [o_undo].
+  rewrite Hu. rewrite rev_app_distr, (replay_doc_app O).
+  destruct (replay_all_blocks (m_doc O md) (m_sum O mc) (m_doc O mc)) as [s1 [Hr1 Hs1]].
+  - apply near_of_calc_rel. exact Hrel.
+  - exact Hwfd.
+  - eapply befores_of_calc_rel; eassumption.
+  - exact Hlive_d.
+  - rewrite Hr1. apply Htr. eapply seq_ex_weaken; [|exact Hs1].
+    intros t c r Hc. eapply created_same_marks; eassumption.
+Qed.
+
+
+(* ------------------------------------------------------------------------------------------------ *)
+(* the hypotheses as one computable check (what the harness evaluates on every recorded trace) *)
+
+Definition wf_tableb (T : table) : bool :=
+  nodup_names (map (c_id O) (t_cols O T)) && negb (nmem id_name (map (c_id O) (t_cols O T))) &&
+  forallb (fun C => forallb (fun r => venc O (vnorm O (ci_type (c_info O C)) (col_get O C r)) (col_get O C r)) (t_rows O T))
+          (t_cols O T).
+
+Definition wf_stateb (s : state) : bool := forallb wf_tableb s.
+
+Lemma find_table_In : forall s t T, find_table O s t = Some T -> In T s.
+Proof.
+  induction s as [|T0 s IH]; intros t T H; cbn in H; [discriminate|].
+  destruct (name_eqb t (t_id O T0)); [inversion H; subst; left; reflexivity | right; eapply IH; exact H].
+Qed.
+
+Lemma wf_stateb_sound : forall s, wf_stateb s = true -> wf_state O s.
+Proof.
+  intros s H t T Hf. unfold wf_stateb in H. rewrite forallb_forall in H.
+  specialize (H T (find_table_In _ _ _ Hf)). unfold wf_tableb in H.
+  apply andb_true_iff in H. destruct H as [H H3]. apply andb_true_iff in H. destruct H as [H1 H2].
+  split; [exact H1|]. split; [apply negb_true_iff; exact H2|].
+  intros c C Hc r Hr. rewrite forallb_forall in H3. specialize (H3 C (find_col_In O _ _ _ Hc)).
+  rewrite forallb_forall in H3. apply H3. exact Hr.
+Qed.
+
+Definition names_okb (s : state) : bool :=
+  forallb (fun T => negb (is_defunct (t_id O T)) && forallb (fun C => negb (is_defunct (c_id O C))) (t_cols O T)) s.
+
+Lemma names_okb_sound : forall s, names_okb s = true -> names_ok s.
+Proof.
+  intros s H t T Hf. unfold names_okb in H. rewrite forallb_forall in H.
+  specialize (H T (find_table_In _ _ _ Hf)). apply andb_true_iff in H. destruct H as [H1 H2].
+  split; [rewrite <- (find_table_id O _ _ _ Hf); apply negb_true_iff; exact H1|].
+  intros c C Hc. rewrite forallb_forall in H2. specialize (H2 C (find_col_In O _ _ _ Hc)).
+  rewrite <- (find_col_id O _ _ _ Hc). apply negb_true_iff. exact H2.
+Qed.
+
+Definition act_names_okb (a : action) : bool :=
+  match a with
+  | AddTable _ t cols => negb (is_defunct t) && forallb (fun ci => negb (is_defunct (fst ci))) cols
+  | RenameTable _ _ new => negb (is_defunct new)
+  | AddColumn _ _ c _ => negb (is_defunct c)
+  | RenameColumn _ _ _ new => negb (is_defunct new)
+  | _ => true
+  end.
+
+Lemma act_names_okb_sound : forall a, act_names_okb a = true -> act_names_ok a.
+Proof.
+  intros a H. destruct a; cbn in *; try exact I; try (apply negb_true_iff; exact H).
+  apply andb_true_iff in H. destruct H as [H1 H2]. split; [apply negb_true_iff; exact H1 | exact H2].
+Qed.
+
+Lemma names_run_sound : forall acts, forallb act_names_okb acts = true -> names_run acts.
+Proof.
+  induction acts as [|a rest IH]; intro H; cbn in *; [exact I|].
+  apply andb_true_iff in H. destruct H as [H1 H2]. split; [apply act_names_okb_sound; exact H1 | apply IH; exact H2].
+Qed.
+
+Fixpoint calc_okb (C : column) (cd : coldelta O) (rows : list Z) (chs : list (change O)) : bool :=
+  match chs with
+  | [] => true
+  | (r, (b, a)) :: rest =>
+      zmem r rows &&
+      match delta_get O cd r with Some _ => true | None => venc O b (col_get O C r) end &&
+      calc_okb (col_set O C r a) (delta_add O cd (r, (b, a))) rows rest
+  end.
+
+Lemma calc_okb_sound : forall chs C cd rows, calc_okb C cd rows chs = true -> calc_ok C cd rows chs.
+Proof.
+  induction chs as [|[r [b a]] rest IH]; intros C cd rows H; cbn [calc_okb calc_ok] in *; [exact I|].
+  apply andb_true_iff in H. destruct H as [H H3]. apply andb_true_iff in H. destruct H as [H1 H2].
+  split; [apply zmem_In; exact H1|]. split; [destruct (delta_get O cd r); [exact I | exact H2] | apply IH; exact H3].
+Qed.
+
+Definition calc_event_okb (m : mstate O) (t c : name) (chs : list (change O)) : bool :=
+  match find_table O (m_doc O m) t with
+  | Some T => match find_col O (t_cols O T) c with
+              | Some C => calc_okb C (delta_of (m_sum O m) t c) (t_rows O T) chs
+              | None => false
+              end
+  | None => false
+  end.
+
+Fixpoint calcs_okb (m : mstate O) (calcs : list calc_ev) : bool :=
+  match calcs with
+  | [] => true
+  | (t, c, chs) :: rest =>
+      calc_event_okb m t c chs &&
+      match step O m (Calc O t c chs) with Ok m' => calcs_okb m' rest | Err _ => true end
+  end.
+
+Lemma calcs_okb_sound : forall calcs m, calcs_okb m calcs = true -> calcs_ok m calcs.
+Proof.
+  induction calcs as [|[[t c] chs] rest IH]; intros m H; cbn [calcs_okb calcs_ok] in *; [exact I|].
+  apply andb_true_iff in H. destruct H as [H1 H2]. split.
+  - unfold calc_event_okb in H1. unfold calc_event_ok.
+    destruct (find_table O (m_doc O m) t) as [T|]; [|discriminate].
+    destruct (find_col O (t_cols O T) c) as [C|]; [|discriminate]. apply calc_okb_sound. exact H1.
+  - destruct (step O m (Calc O t c chs)); [apply IH; exact H2 | exact I].
+Qed.
+
+(* doc actions first, then calc deltas, nothing else *)
+Fixpoint split_calcs (es : list (event O)) : option (list calc_ev) :=
+  match es with
+  | [] => Some []
+  | Calc _ t c chs :: rest => match split_calcs rest with Some l => Some ((t, c, chs) :: l) | None => None end
+  | _ => None
+  end.
+
+Fixpoint split_events (es : list (event O)) : option (list action * list calc_ev) :=
+  match es with
+  | Doc _ a :: rest => match split_events rest with Some (acts, calcs) => Some (a :: acts, calcs) | None => None end
+  | _ => match split_calcs es with Some calcs => Some ([], calcs) | None => None end
+  end.
+
+Lemma split_calcs_sound : forall es calcs, split_calcs es = Some calcs -> es = map calc_event calcs.
+Proof.
+  induction es as [|e es IH]; intros calcs H; cbn in H.
+  - inversion H; subst. reflexivity.
+  - destruct e; try discriminate. destruct (split_calcs es) as [l|]; [|discriminate].
+    inversion H; subst. cbn. f_equal. apply IH. reflexivity.
+Qed.
+
+Lemma split_events_sound : forall es acts calcs,
+  split_events es = Some (acts, calcs) -> es = map (Doc O) acts ++ map calc_event calcs.
+Proof.
+  induction es as [|e es IH]; intros acts calcs H.
+  - cbn in H. inversion H; subst. reflexivity.
+  - destruct e.
+    + cbn in H. destruct (split_events es) as [[acts' calcs']|]; [|discriminate]. inversion H; subst.
+      cbn. f_equal. apply IH. reflexivity.
+    + cbn [split_events] in H. destruct (split_calcs (Calc O t c chs :: es)) as [l|] eqn:E; [|discriminate].
+      inversion H; subst. cbn [map app]. apply split_calcs_sound. exact E.
+    + cbn in H. discriminate.
+    + cbn in H. discriminate.
+Qed.
+
+Definition bundle_ok2 (s : state) (es : list (event O)) : bool :=
+  match split_events es with
+  | Some (acts, calcs) =>
+      wf_stateb s && names_okb s && lossless_runb O s acts && forallb act_names_okb acts &&
+      match steps O (m_init s) (map (Doc O) acts) with Ok m => calcs_okb m calcs | Err _ => true end
+  | None => false
+  end.
+
+Theorem bundle_ok2_undo : forall s es s' out,
+  bundle_ok2 s es = true -> run O s es = Ok (s', out) ->
+  exists s'', replay_doc O (rev (o_undo O out)) s' = Ok s'' /\ seq O s'' s.
+Proof.
+  intros s es s' out Hok H. unfold bundle_ok2 in Hok.
+  destruct (split_events es) as [[acts calcs]|] eqn:Es; [|discriminate].
+  rewrite (split_events_sound _ _ _ Es) in H.
+  apply andb_true_iff in Hok. destruct Hok as [Hok H5]. apply andb_true_iff in Hok. destruct Hok as [Hok H4].
+  apply andb_true_iff in Hok. destruct Hok as [Hok H3]. apply andb_true_iff in Hok. destruct Hok as [H1 H2].
+  eapply calc_bundle_undo; try eassumption.
+  - apply wf_stateb_sound. exact H1.
+  - apply names_okb_sound. exact H2.
+  - apply (lossless_runb_sound O). exact H3.
+  - apply names_run_sound. exact H4.
+  - intros m Hm. rewrite Hm in H5. apply calcs_okb_sound. exact H5.
 Qed.
 
 End Calc.
